@@ -18,6 +18,7 @@ INVS = {
     "C09": ["C09"],
     "C14": ["C14", "C06"],
     "C17": ["C05fixrepairs", "C05trim"],
+    "C18": ["C07", "C06", "C04inert"],
 }
 
 
@@ -44,6 +45,9 @@ def mismatch_sig(m, run):
     for k in ("exp", "got", "exc"):
         if k in d:
             sig[k] = d[k]
+    if m["clause"] in ("finish", "import") and isinstance(m["detail"], list):
+        sig["error"] = m["detail"][0]
+        sig["overlap"] = len(m["detail"]) > 1 and "Replacement(" in str(m["detail"][1])
     return sig
 
 
@@ -86,7 +90,7 @@ EMIT_STRIDE_B = (1024, 64)
 
 def core_check(pid: str, *, f_filter=None, cfgs=("A",), quick_stride=8, quick_keep=20,
                thorough_stride=1, thorough_keep=8, level="model_checking", extra=None,
-               sessions_quick=0, sessions_thorough=0, run_filter=None, annotate=None, keep_b=(6, 2)):
+               sessions_quick=0, sessions_thorough=0, run_filter=None, annotate=None, keep_b=(6, 2), overrides=None):
     chk = Check(pid, level)
     if chk.replay:
         return replay_file(chk)
@@ -102,9 +106,9 @@ def core_check(pid: str, *, f_filter=None, cfgs=("A",), quick_stride=8, quick_ke
         # the model-checking run and the emission run of one configuration share the machine
         with cf.ThreadPoolExecutor(2) as ex:
             f_mc = ex.submit(run_mc, chk, "Core_%s_mc.cfg" % c, INVS[pid],
-                             {"Stride": stride_mc, "Offset": chk.seed % stride_mc}, "mc " + c)
+                             dict(overrides or {}, Stride=stride_mc, Offset=chk.seed % stride_mc), "mc " + c)
             f_em = ex.submit(tlc.run_tlc, "MC_Core", "Core_%s_emit.cfg" % c, timeout=1500, workers=8,
-                             overrides={"Stride": stride_emit, "Offset": chk.seed % stride_emit})
+                             overrides=dict(overrides or {}, Stride=stride_emit, Offset=chk.seed % stride_emit))
             futs = {("mc", c): f_mc, ("emit", c): f_em}
         for (kind, c2), f in futs.items():
             res = f.result()
